@@ -41,7 +41,11 @@ def run(ctx):
         va = ValidSets(f, bodies, fam)
         validity(ctx, f, va, fam, bodies, cfg)
         unchanged(ctx, f, fam, bodies, cfg)
+        # "unchanged" is decided by rule equality: it must see every parameter (all five families)
+        from . import rules_C11
+        rules_C11.eq_coverage(ctx, f, fam, "core::%s::rule::Rule" % fam, cfg, R="C10.unchanged/equality")
         per_resource(ctx, f, fam, bodies, cfg)
+        raw_snapshot(ctx, f, fam, bodies, cfg)
         append_protocol(ctx, f, lm, fam, bodies, cfg)
         getters(ctx, f, lm, fam, bodies, cfg)
     ctx.floor("C10.anchor", "rule manager modules", n_mgr, 5)
@@ -484,3 +488,73 @@ def getters(ctx, f, lm, fam, bodies, cfg):
         ctx.instance("C10.getters", b.path, {"locks": classes, "returns_from": src}, "one guard on %s, result read from it" % enforced, ok, cfg)
         if not ok:
             ctx.violation("C10.getters", "C10.getters|%s::%s" % (fam, name), "%s::%s does not report the enforced rules (%s) under one guard: locks %s, sources %s" % (fam, name, enforced, classes, src), b.loc(), config=cfg)
+
+
+RAW = {"flow": "RULE_MAP", "hotspot": "RULE_MAP", "circuitbreaker": "CURRENT_RULES", "isolation": "CURRENT_RULES", "system": "CURRENT_RULES"}
+
+
+def raw_snapshot(ctx, f, fam, bodies, cfg):
+    """Every path on which a load reports "changed" (true / Ok(true)) also records the given raw rules in the snapshot that the
+    next "unchanged?" comparison (and append's "already present?" test) reads - otherwise a later identical load is wrongly skipped."""
+    raw = RAW[fam]
+    for name in ("load_rules", "load_rules_of_resource"):
+        b = bodies.get("core::%s::rule_manager::%s" % (fam, name))
+        if b is None:
+            continue
+        sl = Slicer(f, b)
+        writes = []
+        for bb, kind, t in _global_writes(f, b):
+            if t is None:
+                # *guard = value
+                for st in b.blocks[bb]["stmts"]:
+                    if st["k"] == "assign" and st["lhs"]["p"] == ["*"]:
+                        a = container_roots(f, b, {"k": "copy", "pl": {"l": st["lhs"]["l"], "p": []}})
+                        if any(x.startswith("static:") and x.endswith("::" + raw) for x in a):
+                            writes.append(bb)
+            else:
+                a = container_roots(f, b, t["args"][0])
+                if any(x.startswith("static:") and x.endswith("::" + raw) for x in a) and kind in ("insert", "remove", "clear"):
+                    writes.append(bb)
+        # helper calls that do it (isolation's clear_rules_of_resource)
+        for bb, t in b.calls():
+            for tg in f.call_targets(b, t):
+                hb = f.bodies.get(tg)
+                if hb is not None and tg in bodies and tg != b.path:
+                    if any(any(x.startswith("static:") and x.endswith("::" + raw) for x in container_roots(f, hb, tt["args"][0])) for _, tt in hb.calls() if tt["args"] and callee_def(tt).rsplit("::", 1)[-1] in ("insert", "remove", "clear")):
+                        writes.append(bb)
+        # blocks that make the function report "changed"
+        changed = []
+        for bi, blk in enumerate(b.blocks):
+            if blk["cleanup"]:
+                continue
+            for st in blk["stmts"]:
+                if st["k"] == "assign" and st["lhs"]["l"] == 0 and not st["lhs"]["p"]:
+                    rv = st["rv"]
+                    if rv["k"] == "use" and const_val(rv["op"]) == 1 and b.ret_ty == "bool":
+                        changed.append(bi)
+                    if rv["k"] == "agg" and rv.get("variant") == "Ok" and rv["ops"] and const_val(rv["ops"][0]) == 1:
+                        changed.append(bi)
+        if b.ret_ty == "()":
+            # isolation / system load_rules return nothing: "changed" = any path that writes the enforced map
+            emap = {"isolation": "RULE_MAP", "system": "RULE_MAP"}.get(fam)
+            for bb, kind, t in _global_writes(f, b):
+                if t is None:
+                    for st in b.blocks[bb]["stmts"]:
+                        if st["k"] == "assign" and st["lhs"]["p"] == ["*"]:
+                            a = container_roots(f, b, {"k": "copy", "pl": {"l": st["lhs"]["l"], "p": []}})
+                            if emap and any(x.endswith("::" + emap) for x in a):
+                                changed.append(bb)
+            goals = b.return_blocks()
+            w = None
+            for c in changed:
+                if not (set(writes) & (b.reachable([c]) | {x for x in range(len(b.blocks)) if c in b.reachable([x])})):
+                    w = [c]
+        else:
+            w = must_pass(b, [0], changed, writes) if changed else None
+        ok = bool(changed) and bool(writes) and w is None
+        ctx.instance("C10.raw-snapshot", b.path, {"snapshot": raw, "snapshot_writes": len(set(writes)), "changed_exits": len(changed), "path_without_snapshot_update": fmt_path(b, w) if w else None},
+                     "every path that reports a change also updates the raw snapshot", ok, cfg)
+        if not ok:
+            ctx.violation("C10.raw-snapshot", "C10.raw-snapshot|%s::%s" % (fam, name),
+                          "%s::%s can report a change without recording the given rules in %s: the next identical load (or append) is compared against a stale snapshot" % (fam, name, raw),
+                          b.loc(), fmt_path(b, w) if w else None, config=cfg)
